@@ -74,6 +74,7 @@ class Unit:
         self.files = {}
         self.entries = []    # ("include", path) | ("raw", text) | ("type", path, opts) | ("fn", FnSpec) | ("const", path)
         self.strips = []
+        self.seen = set()
 
 
 def parse_unit(path):
@@ -114,7 +115,9 @@ def parse_unit(path):
             a, p = arg.split()
             u.files[a] = p
         elif d == "@include":
-            u.entries.append(("include", arg))
+            if ("include", arg) not in u.seen:
+                u.seen.add(("include", arg))
+                u.entries.append(("include", arg))
         elif d == "@use":
             sub = parse_unit(os.path.join(VERIF, arg))
             for a, pth in sub.files.items():
@@ -125,6 +128,10 @@ def parse_unit(path):
                 if s_ not in u.strips:
                     u.strips.append(s_)
             for e in sub.entries:
+                key = (e[0], e[1].path if e[0] == "fn" else e[1])
+                if key in u.seen:
+                    continue
+                u.seen.add(key)
                 if e[0] == "fn":
                     e[1].imported = sub.name
                     e[1].hints = []
@@ -132,8 +139,6 @@ def parse_unit(path):
                     e[1].closures = {}
                     e[1].substs = []
                     e[1].assume_entry = []
-                if e[0] == "include" and e in u.entries:
-                    continue
                 u.entries.append(e)
         elif d == "@strip":
             u.strips.append(arg)
@@ -413,6 +418,16 @@ def build_fn(u, fs, log, probe=False):
             raise Undecided("R9 pattern not found in %s: %s" % (fs.path, pat.strip()[:60]))
         log.append({"rule": "R9", "fn": fs.path, "pattern": " ".join(pat.split()), "replacement": " ".join(rep.split()), "count": n})
     btoks = rl.lex(body_text)
+    # R12: `mut self` receiver (unsupported by Verus): receiver becomes `self`, the body works on a
+    # mutable local copy named verif_self (every `self` token of the body is renamed)
+    mut_self = False
+    if re.search(r"\(\s*mut self\b", sig_text):
+        sig_text = re.sub(r"\(\s*mut self\b", "( self", sig_text, count=1)
+        for t in btoks:
+            if t.kind == "ident" and t.text == "self":
+                t.text = "verif_self"
+        mut_self = True
+        log.append({"rule": "R12", "fn": fs.path})
     # token rules
     btoks = rules.apply_token_rules(btoks, u.strips, fs.path, log)
     # positional insertions
@@ -460,6 +475,8 @@ def build_fn(u, fs, log, probe=False):
         fn_text = "%s    #[verifier::external_body]\n    %s%s    { unimplemented!() }\n" % (attrs, sig_text, spec)
         log.append({"rule": "nobody", "fn": fs.path})
     else:
+        if mut_self:
+            body = "\n        let mut verif_self = self;" + body
         fn_text = "%s    %s%s    {%s%s%s}\n" % (attrs, sig_text, spec, entry, entry_hints, body)
         if probe and "ensures" in fs.spec and not fs.imported:
             # vacuity probe twin: same requires, same body, `ensures false`; must FAIL to verify.
@@ -523,13 +540,13 @@ def build_const(u, path, log):
     toks = [t for t in it.toks[it.start:it.end] if t.kind != "doc"]
     text = rl.text_of(toks)
     if it.kind == "static":
-        # R12: Verus wants an immutable static as `exec static N: T ensures N == E { E }`; the type T and the
+        # R13: Verus wants an immutable static as `exec static N: T ensures N == E { E }`; the type T and the
         # initialiser E are the extracted tokens, so a changed value in /repo changes the verified text.
         m = re.match(r"\s*(pub(?:\s*\([^)]*\))?\s+)?static\s+(?!mut\b)(\w+)\s*:\s*([^=]+?)\s*=\s*(.*?)\s*;\s*$", text, re.S)
         if not m:
             raise Undecided("static %s: not of the form `static NAME: T = EXPR;`" % path)
         vis, nm, ty, init = m.group(1) or "", m.group(2), m.group(3), m.group(4)
-        log.append({"rule": "R12", "item": path, "type": ty, "init": init})
+        log.append({"rule": "R13", "item": path, "type": ty, "init": init})
         return "%sexec static %s: %s ensures %s == %s { %s }\n" % (vis, nm, ty, nm, init, init)
     return text + "\n"
 
